@@ -71,7 +71,7 @@ fn simplify_op(o: &Op) -> Vec<Op> {
     let strip = |m: &Msg| Msg { id: m.id, kind: MsgKind::Work, steps: vec![] };
     let mut c = Vec::new();
     match o {
-        Op::Cancel { op, .. } | Op::Unpolled(op) => c.push((**op).clone()),
+        Op::Cancel { op, .. } | Op::Unpolled(op) | Op::Deferred { op, .. } => c.push((**op).clone()),
         Op::TellT { h, m, .. } => c.push(Op::Tell { h: *h, m: m.clone() }),
         Op::AskT { h, m, .. } => c.push(Op::Ask { h: *h, m: m.clone() }),
         Op::TellUs { h, m, .. } => c.push(Op::Tell { h: *h, m: m.clone() }),
@@ -102,7 +102,7 @@ fn for_each_list(sc: &mut Scenario, f: &mut dyn FnMut(&mut Vec<Op>)) {
                 Op::Tell { m, .. } | Op::TellT { m, .. } | Op::Ask { m, .. } | Op::AskT { m, .. } | Op::AskJoin { m, .. } | Op::TellUs { m, .. } | Op::AskUs { m, .. } | Op::TellSelf { m, .. } => rec(&mut m.steps, f),
                 Op::Fork { ops, .. } => rec(ops, f),
                 Op::Join(ops) | Op::Race(ops) => rec(ops, f),
-                Op::Cancel { op, .. } | Op::Unpolled(op) => {
+                Op::Cancel { op, .. } | Op::Unpolled(op) | Op::Deferred { op, .. } => {
                     if let Op::Tell { m, .. } | Op::TellT { m, .. } | Op::Ask { m, .. } | Op::AskT { m, .. } | Op::AskJoin { m, .. } | Op::TellUs { m, .. } | Op::AskUs { m, .. } = &mut **op {
                         rec(&mut m.steps, f)
                     }
